@@ -1,9 +1,10 @@
-/- GENERATED on every run by harness (py2lean.py) from src/py_gql/lang/lexer.py (Lexer._read_name, _read_over_digits, _read_over_integer, _read_over_whitespace, _read_ellipsis).
+/- GENERATED on every run by harness (py2lean.py) from src/py_gql/lang/lexer.py (Lexer._read_name, _read_over_digits, _read_over_integer, _read_over_whitespace, _read_ellipsis, _read_number).
    Do not edit: the check rewrites this file from /repo's working tree. -/
 /- Translated by py2lean.Tr. Constructs used and how they were read:
      * `is None` on a str/int-typed variable -> constant
      * for -> structural recursion on the sequence
      * index (IndexError explicit)
+     * join point: the statements after an if / try are ONE auxiliary definition of the variables they read
      * method: self.X -> variable self_X; mutated attributes returned next to the result
      * raise
      * range(a, b) -> Py.range (the list of the integers a .. b-1)
@@ -17,7 +18,9 @@
    whose final value is returned next to the result; `Name(start, end, value)` is the triple of its arguments;
    `digits` / `ascii_letters` are the constants of the standard `string` module (checked: imported from there);
    the exception arguments (position, source) are dropped; `self._read_over_digits()` is the translated method above run on
-   the current attribute values; the default parameter `__ignored` is the module literal IGNORED_CHARS. -/
+   the current attribute values; the default parameter `__ignored` is the module literal IGNORED_CHARS;
+   in `_read_number` the local `char` is Optional[str] (`None` after the end of the source), `Float(..)` / `Integer(..)` are
+   (is_float, start, end, value), and the statements after each if / try are one auxiliary definition `.kN`. -/
 import PyGqlModel.PyPrelude
 set_option linter.unusedVariables false
 namespace PyGql.Generated.Tr
@@ -335,5 +338,191 @@ def Lexer._read_ellipsis (self__source : List Nat) (self__position : Int) : Exce
      | .raise e__ => (.error e__)
      | .fall self__position =>
        (.ok ((Py.tok2 start self__position), self__position))))
+
+/-
+def _read_number(self) -> Union[Integer, Float]:  # noqa: C901
+        start = self._position
+        is_float = False
+
+        try:
+            char = self._source[self._position]  # type: Optional[str]
+        except IndexError:
+            char = None
+
+        if char == "-":
+            self._position += 1
+
+        self._read_over_integer()
+
+        try:
+            char = self._source[self._position]
+        except IndexError:
+            char = None
+
+        if char == ".":
+            self._position += 1
+            is_float = True
+            self._read_over_digits()
+
+        try:
+            char = self._source[self._position]
+        except IndexError:
+            char = None
+
+        if char is not None and char in "eE":
+            self._position += 1
+            is_float = True
+
+            try:
+                char = self._source[self._position]
+            except IndexError:
+                char = None
+
+            if char is not None and char in "+-":
+                self._position += 1
+
+            self._read_over_digits()
+
+        # Explicit lookahead restrictions.
+        try:
+            next_char = self._source[self._position]
+        except IndexError:
+            pass
+        else:
+            if next_char == "_" or next_char in ascii_letters:
+                raise UnexpectedCharacter(
+                    'Unexpected character "%s"' % char,
+                    self._position,
+                    self._source,
+                )
+
+        end = self._position
+        value = self._source[start:end]
+        return (
+            Float(start, end, value) if is_float else Integer(start, end, value)
+        )
+-/
+def Lexer._read_number.k7 (self__source : List Nat) (self__position : Int) (start : Int) (is_float : Bool) : Except String ((Bool × Int × Int × (List Nat)) × Int) :=
+  (let end_ := self__position
+   (let value := (Py.slice self__source start end_)
+    (.ok ((if is_float then (Py.tokNum true start end_ value) else (Py.tokNum false start end_ value)), self__position))))
+
+def Lexer._read_number.k6 (self__source : List Nat) (start : Int) (self__position : Int) (is_float : Bool) : Except String ((Bool × Int × Int × (List Nat)) × Int) :=
+  (match ((match (Py.getItem self__source self__position) with
+    | .error e__ => (.raise e__)
+    | .ok next_char =>
+      (.fall next_char)) : Py.Flow String Nat ((Bool × Int × Int × (List Nat)) × Int)) with
+    | .ret r__ => (.ok r__)
+    | .raise e__ =>
+      (if e__ == "IndexError" then
+        (Lexer._read_number.k7 self__source self__position start is_float)
+      else
+        (.error e__))
+    | .fall next_char =>
+      (if ((next_char == 95) || (([97, 98, 99, 100, 101, 102, 103, 104, 105, 106, 107, 108, 109, 110, 111, 112, 113, 114, 115, 116, 117, 118, 119, 120, 121, 122, 65, 66, 67, 68, 69, 70, 71, 72, 73, 74, 75, 76, 77, 78, 79, 80, 81, 82, 83, 84, 85, 86, 87, 88, 89, 90] : List Nat).contains next_char)) then
+        (.error "UnexpectedCharacter")
+      else
+        (Lexer._read_number.k7 self__source self__position start is_float)))
+
+def Lexer._read_number.k9 (self__source : List Nat) (start : Int) (is_float : Bool) (self__position : Int) : Except String ((Bool × Int × Int × (List Nat)) × Int) :=
+  (match (Lexer._read_over_digits self__source self__position) with
+    | .error e__ => (.error e__)
+    | .ok (_, self__position) =>
+      (Lexer._read_number.k6 self__source start self__position is_float))
+
+def Lexer._read_number.k8 (self__source : List Nat) (self__position : Int) (start : Int) (is_float : Bool) (char : Option Nat) : Except String ((Bool × Int × Int × (List Nat)) × Int) :=
+  (if ((char).isSome && (match char with | some c__ => ([43, 45] : List Nat).contains c__ | none => false)) then
+    (let self__position := (self__position + (1 : Int))
+     (Lexer._read_number.k9 self__source start is_float self__position))
+  else
+    (Lexer._read_number.k9 self__source start is_float self__position))
+
+def Lexer._read_number.k5 (self__source : List Nat) (self__position : Int) (start : Int) (is_float : Bool) (char : Option Nat) : Except String ((Bool × Int × Int × (List Nat)) × Int) :=
+  (if ((char).isSome && (match char with | some c__ => ([101, 69] : List Nat).contains c__ | none => false)) then
+    (let self__position := (self__position + (1 : Int))
+     (let is_float := true
+      (match ((match (match (Py.getItem self__source self__position) with | .error e__ => Except.error e__ | .ok t1__ => (Except.ok (some t1__) : Except String _)) with
+        | .error e__ => (.raise e__)
+        | .ok char =>
+          (.fall char)) : Py.Flow String ((Option Nat)) ((Bool × Int × Int × (List Nat)) × Int)) with
+        | .ret r__ => (.ok r__)
+        | .raise e__ =>
+          (if e__ == "IndexError" then
+            (let char := none
+             (Lexer._read_number.k8 self__source self__position start is_float char))
+          else
+            (.error e__))
+        | .fall char =>
+          (Lexer._read_number.k8 self__source self__position start is_float char))))
+  else
+    (Lexer._read_number.k6 self__source start self__position is_float))
+
+def Lexer._read_number.k4 (self__source : List Nat) (start : Int) (char : Option Nat) (self__position : Int) (is_float : Bool) : Except String ((Bool × Int × Int × (List Nat)) × Int) :=
+  (match ((match (match (Py.getItem self__source self__position) with | .error e__ => Except.error e__ | .ok t2__ => (Except.ok (some t2__) : Except String _)) with
+    | .error e__ => (.raise e__)
+    | .ok char =>
+      (.fall char)) : Py.Flow String ((Option Nat)) ((Bool × Int × Int × (List Nat)) × Int)) with
+    | .ret r__ => (.ok r__)
+    | .raise e__ =>
+      (if e__ == "IndexError" then
+        (let char := none
+         (Lexer._read_number.k5 self__source self__position start is_float char))
+      else
+        (.error e__))
+    | .fall char =>
+      (Lexer._read_number.k5 self__source self__position start is_float char))
+
+def Lexer._read_number.k3 (self__source : List Nat) (self__position : Int) (start : Int) (is_float : Bool) (char : Option Nat) : Except String ((Bool × Int × Int × (List Nat)) × Int) :=
+  (if (char == (some 46)) then
+    (let self__position := (self__position + (1 : Int))
+     (let is_float := true
+      (match (Lexer._read_over_digits self__source self__position) with
+        | .error e__ => (.error e__)
+        | .ok (_, self__position) =>
+          (Lexer._read_number.k4 self__source start char self__position is_float))))
+  else
+    (Lexer._read_number.k4 self__source start char self__position is_float))
+
+def Lexer._read_number.k2 (self__source : List Nat) (start : Int) (is_float : Bool) (char : Option Nat) (self__position : Int) : Except String ((Bool × Int × Int × (List Nat)) × Int) :=
+  (match (Lexer._read_over_integer self__source self__position) with
+    | .error e__ => (.error e__)
+    | .ok (_, self__position) =>
+      (match ((match (match (Py.getItem self__source self__position) with | .error e__ => Except.error e__ | .ok t3__ => (Except.ok (some t3__) : Except String _)) with
+        | .error e__ => (.raise e__)
+        | .ok char =>
+          (.fall char)) : Py.Flow String ((Option Nat)) ((Bool × Int × Int × (List Nat)) × Int)) with
+        | .ret r__ => (.ok r__)
+        | .raise e__ =>
+          (if e__ == "IndexError" then
+            (let char := none
+             (Lexer._read_number.k3 self__source self__position start is_float char))
+          else
+            (.error e__))
+        | .fall char =>
+          (Lexer._read_number.k3 self__source self__position start is_float char)))
+
+def Lexer._read_number.k1 (self__source : List Nat) (self__position : Int) (start : Int) (is_float : Bool) (char : Option Nat) : Except String ((Bool × Int × Int × (List Nat)) × Int) :=
+  (if (char == (some 45)) then
+    (let self__position := (self__position + (1 : Int))
+     (Lexer._read_number.k2 self__source start is_float char self__position))
+  else
+    (Lexer._read_number.k2 self__source start is_float char self__position))
+
+def Lexer._read_number (self__source : List Nat) (self__position : Int) : Except String ((Bool × Int × Int × (List Nat)) × Int) :=
+  (let start := self__position
+   (let is_float := false
+    (match ((match (match (Py.getItem self__source self__position) with | .error e__ => Except.error e__ | .ok t4__ => (Except.ok (some t4__) : Except String _)) with
+      | .error e__ => (.raise e__)
+      | .ok char =>
+        (.fall char)) : Py.Flow String ((Option Nat)) ((Bool × Int × Int × (List Nat)) × Int)) with
+      | .ret r__ => (.ok r__)
+      | .raise e__ =>
+        (if e__ == "IndexError" then
+          (let char := none
+           (Lexer._read_number.k1 self__source self__position start is_float char))
+        else
+          (.error e__))
+      | .fall char =>
+        (Lexer._read_number.k1 self__source self__position start is_float char))))
 
 end PyGql.Generated.Tr
